@@ -351,6 +351,12 @@ def check_history(case):
     from beyond.dates import Date, timedelta
     from beyond.env import solarsystem
 
+    def fail(kind, msg):
+        # one raise site for the whole history: with a cache that outlives the case the *first*
+        # symptom differs between a run and its replay in the same process; Hypothesis takes the
+        # raise location as the identity of a failure
+        raise Violation(kind, msg)
+
     name = case["body"]
     series = name in HIST_STEP
     step = HIST_STEP.get(name, 1)
@@ -389,20 +395,20 @@ def check_history(case):
         where = f"step {n + 1} ({name}, date {k:+d} x {step} d)"
         vals = np.array(res.base, float)
         if not np.all(np.isfinite(vals)):
-            raise Violation("non-finite", f"{where}: {vals.tolist()}")
+            fail("non-finite", f"{where}: {vals.tolist()}")
         for old in handed:
             if res is old:
-                raise Violation("history-same-object", f"{where}: the library handed out an object it had handed out before")
+                fail("history-same-object", f"{where}: the library handed out an object it had handed out before")
             if np.shares_memory(np.asarray(res.base), np.asarray(old.base)):
-                raise Violation("history-shared-buffer", f"{where}: the result shares its buffer with an earlier result")
+                fail("history-shared-buffer", f"{where}: the result shares its buffer with an earlier result")
         if res.frame.name != native or res.form.name != "cartesian":
-            raise Violation("history-frame-form",
+            fail("history-frame-form",
                             f"{where}: state comes in {res.frame.name}/{res.form.name}, a fresh one is {native}/cartesian")
         if abs((res.date - dt).total_seconds()) > 1.0:
-            raise Violation("history-date", f"{where}: state dated {res.date} for a request at {dt}")
+            fail("history-date", f"{where}: state dated {res.date} for a request at {dt}")
         if k in first:
             if not np.array_equal(vals, first[k]):
-                raise Violation("history-value",
+                fail("history-value",
                                 f"{where}: {vals.tolist()} now, {first[k].tolist()} the first time this date was asked")
             cls.add("repeat")
         else:
@@ -421,10 +427,10 @@ def check_history(case):
             verr = float(np.linalg.norm(vals[3:] - fd)) / float(np.linalg.norm(fd))
             worst = max(worst, ang / tol_ang, dist / tol_dist, verr / tol_vel)
             if ang > tol_ang or dist > tol_dist:
-                raise Violation("history-position",
+                fail("history-position",
                                 f"{where}: {ang:.4f} deg / {dist:.3g} from DE403 (allowed {tol_ang} deg / {tol_dist})")
             if verr > tol_vel:
-                raise Violation("history-velocity",
+                fail("history-velocity",
                                 f"{where}: velocity {vals[3:].tolist()} m/s is {100 * verr:.3g} % away from the derivative "
                                 f"of the position {fd.tolist()} (allowed {100 * tol_vel} %)")
         else:
@@ -437,7 +443,7 @@ def check_history(case):
             tol_p = speed * TIMING + 1e-3 + 1e-14 * float(np.linalg.norm(ref[:3]))
             worst = max(worst, dp / tol_p, dv / (2e-5 + 1e-13 * speed))
             if dp > tol_p or dv > 2e-5 + 1e-13 * speed:
-                raise Violation("history-position", f"{where}: {dp:.4g} m, {dv:.4g} m/s from the kernel segment")
+                fail("history-position", f"{where}: {dp:.4g} m, {dv:.4g} m/s from the kernel segment")
         handed.append(res)
         cls.add(f"k:{abs(k)}")
     nq = sum(1 for o in case["ops"] if o["op"] == "query")
